@@ -1069,8 +1069,9 @@ func (w *World) getArchetypes(filter Filter) []*archetype {
 }
 
 // Removes the archetype if it is empty, and has a relation to a dead target.
+// Does nothing if the archetype was already removed, e.g. when its only entity was its own target.
 func (w *World) cleanupArchetype(arch *archetype) {
-	if arch.Len() > 0 || !arch.node.HasRelation {
+	if arch.Len() > 0 || !arch.node.HasRelation || !arch.IsActive() {
 		return
 	}
 	target := arch.RelationTarget
